@@ -5,7 +5,9 @@
    is listed as unproved in props/C14.json and is decided, for now, by the specification
    oracle evaluated on real copy.Copy runs inside a chroot jail with a sentinel tree. *)
 From Coq Require Import List NArith Bool.
-From FS Require Import Sx Model.Path Proofs.Lex Proofs.PathP Proofs.CleanP.
+From FS Require Import Sx Model.Path Model.Fs Model.RootPath Model.CopyFs Model.CopyFsSpec
+  Proofs.Lex Proofs.PathP Proofs.CleanP Proofs.RootPathP Proofs.RootPathWitnessP Proofs.CopyContainedP
+  Proofs.CopyFsWitnessP.
 Import ListNotations.
 
 (* Whatever the argument (any number of "..", empty components, dots, separators), the
@@ -21,4 +23,163 @@ Example clamp_examples :
   clean (sep :: [46;46;47;46;46;47;111]) = [47; 111]          (* "/../../o"  -> "/o" *)
   /\ clean (sep :: [97;47;46;46;47;46;46]) = [47]             (* "/a/../.."  -> "/"  *)
   /\ clean (sep :: [47;47;97;47;46;47;98]) = [47;97;47;98].   (* "///a/./b"  -> "/a/b" *)
+Proof. vm_compute. repeat split. Qed.
+
+(* ---------------------------------------------------------------------------------------
+   fs.RootPath / copy.rootPath over the syscall-level file-system model (Model/Fs.v).
+   Vocabulary (Model/RootPath.v): [render cs] = "/c1/.../cn"; [lex_name_ok] = a name (non-empty, no
+   separator, not "." / ".."), [name_ok] = such a name without NUL byte; [plain_dir f d cs = Some i] = cs leads from directory d to
+   directory i through real directories; [link_free f d cs] = no prefix of cs, looked up from d
+   without following anything, is a symlink (missing entries allowed: "does not exist yet").
+   Scope: root is a clean absolute path whose own components are real directories. *)
+
+(* For EVERY file system, path argument (absolute, ".."-laden, through dangling or looping
+   links, ...) and outcome: when fs.RootPath succeeds its result is root followed by names only,
+   and no prefix of it below root is a symlink. *)
+Theorem rootpath_result_link_free :
+  forall c f rcs dr p out,
+    forallb name_ok rcs = true ->
+    plain_dir f (c_root c) rcs = Some dr ->
+    root_path c f (render rcs) p = inl out ->
+    exists cs, out = render (rcs ++ cs) /\ forallb name_ok cs = true /\ link_free f dr cs = true.
+Proof. exact rootpath_result_link_free_proof. Qed.
+Print Assumptions rootpath_result_link_free.
+
+(* copy.rootPath: the same with followLinks; without it the final name is not examined. *)
+Theorem copy_rootpath_result_link_free :
+  forall c f rcs dr p follow out,
+    forallb name_ok rcs = true ->
+    plain_dir f (c_root c) rcs = Some dr ->
+    copy_root_path c f (render rcs) p follow = inl out ->
+    exists cs, out = render (rcs ++ cs) /\ forallb lex_name_ok cs = true /\
+               forallb name_ok (if follow then cs else removelast cs) = true /\
+               link_free f dr (if follow then cs else removelast cs) = true.
+Proof. exact copy_rootpath_result_link_free_proof. Qed.
+Print Assumptions copy_rootpath_result_link_free.
+
+(* Such a path names the same directory entry and inode for every process root (the real one,
+   or root itself as after chroot), with or without following the final component, whatever the
+   kernel's symlink budget: "as if root were /" holds for the RESULT. *)
+Theorem link_free_resolution_rootless :
+  forall f dr cs,
+    forallb lex_name_ok cs = true -> link_free f dr cs = true ->
+    forall fuel rt1 rt2 fl1 fl2 n1 n2,
+      walk fuel f rt1 dr cs fl1 n1 = walk fuel f rt2 dr cs fl2 n2.
+Proof. exact link_free_resolution_rootless_proof. Qed.
+Print Assumptions link_free_resolution_rootless.
+
+(* rootpath_is_chroot_resolution — "root_path = Fs.v resolution with the process root set to
+   root, for every fs and path" — is FALSE: RootPath substitutes link TARGET TEXT and lets
+   filepath.Join cancel ".." lexically.  Witness (real code: corpus/C14/rootpath-not-chroot.case):
+   root /j, p/y -> /r/s, p/a -> y/..; chroot resolves "p/a" to /r, RootPath to /p. *)
+Theorem rootpath_is_chroot_resolution_refuted :
+  exists (f : fs) (rcs : list bytes) (dr : N) (p out : bytes) (r1 r2 : lres),
+    forallb name_ok rcs = true /\ plain_dir f (c_root ctx_init) rcs = Some dr /\
+    root_path ctx_init f (render rcs) p = inl out /\
+    copy_root_path ctx_init f (render rcs) p true = inl out /\
+    resolve {| c_root := dr; c_cwd := dr |} f p true = inl r1 /\
+    resolve ctx_init f out true = inl r2 /\
+    l_ino r1 <> l_ino r2.
+Proof. exact rootpath_is_chroot_resolution_refuted_proof. Qed.
+Print Assumptions rootpath_is_chroot_resolution_refuted.
+
+(* RootPath's Lstat calls are ordinary, un-rooted lookups: an absolute symlink in the middle of a
+   multi-component link target sends them outside root, and the outcome depends on what is there.
+   Two file systems identical at and below root, different results
+   (real code: corpus/C14/rootpath-reads-outside.case).  The result itself stays below root
+   (rootpath_result_link_free). *)
+Theorem rootpath_reads_outside_root_refuted :
+  exists (f f' : fs) (rcs : list bytes) (dr : N) (p : bytes),
+    forallb name_ok rcs = true /\
+    plain_dir f (c_root ctx_init) rcs = Some dr /\ plain_dir f' (c_root ctx_init) rcs = Some dr /\
+    get f dr = get f' dr /\ tree_below 64 f dr [] = tree_below 64 f' dr [] /\
+    root_path ctx_init f (render rcs) p <> root_path ctx_init f' (render rcs) p.
+Proof. exact rootpath_reads_outside_root_refuted_proof. Qed.
+Print Assumptions rootpath_reads_outside_root_refuted.
+
+(* non-vacuity: a successful run through an absolute link, a "..", and a dangling final link *)
+Example rootpath_examples :
+  root_path ctx_init wA (render [[106]]) [112;47;121;47;46;46;47;46;46;47;46;46;47;112;47;121] = inl [47;106;47;114;47;115]
+  (* "p/y/../../../p/y" -> "/j/r/s" *)
+  /\ plain_dir wA 1 [[106]] = Some 2
+  /\ link_free wA 2 [[114];[115]] = true /\ link_free wA 2 [[112];[121]] = false.
+Proof. vm_compute. repeat split. Qed.
+
+(* ---------------------------------------------------------------------------------------
+   The copier over the syscall-level model (Model/CopyFs.v, validated against the real copy.Copy
+   by kind 1404).  Vocabulary (Model/CopyFsSpec.v): [chain f d cs e] = the names cs lead from
+   directory d to directory e through real directories; [inside_dir f dr i] = i is dr or a
+   directory below it; [fs_wf] = allocation counter above all numbers in use, unique proper entry
+   names, one parent entry per directory, no directory below itself. *)
+
+(* copier.copy / copyDirectory (copy_rec) into "<dstRoot>/cs/x" where cs are real directories:
+   whatever the source, the options, the symlinks and hard links below, of the inodes that existed
+   before only DIRECTORIES at or below dstRoot can have changed: no file anywhere (not even one
+   inside dstRoot that is also linked from outside), no directory outside, not dstRoot's entry in
+   its parent. *)
+Theorem copy_rec_contained :
+  forall fuel c o src ow f0 dr dcs cs x d s' r,
+    fs_wf f0 ->
+    forallb name_ok dcs = true -> chain f0 (c_root c) dcs dr -> (length dcs < rfuel)%nat ->
+    forallb name_ok cs = true -> name_ok x = true -> chain f0 dr cs d ->
+    copy_rec fuel c o src (render (dcs ++ cs ++ [x])) ow (cst_init f0) = (s', r) ->
+    forall i, (i < f_next f0)%N -> ~ inside_dir f0 dr i -> get (s_fs s') i = get f0 i.
+Proof. exact copy_rec_contained_proof. Qed.
+Print Assumptions copy_rec_contained.
+
+(* Copy (copy_top): argument resolution through fs.RootPath, MkdirAll, prepareTargetDir, the loop
+   over the (wildcard) sources, copier.copy with the hard-link map (forgetLinkSources) and the
+   deferred fixCreatedParentDirs (stillBelow) — the code as repaired after the escapes this proof
+   found (corpus/C14/hardlink-path-reresolved.case, created-dir-path-replaced.case).
+   For every well-formed file system, every option set of the model (follow-links, always-replace,
+   dir-contents, chown, utime, mode), every source / destination argument and EVERY list of wildcard
+   matches: of the inodes that existed before, only directories at or below dstRoot can have
+   changed.  Hence nothing outside dstRoot changes: no outside file or directory (content, metadata,
+   entries), no inode hard-linked from outside, not dstRoot's own entry in its parent.
+   srcRoot and dstRoot are clean absolute paths whose components are real directories; srcRoot is
+   dstRoot or lies outside it; no NUL byte in the source arguments. *)
+Theorem copy_contained :
+  forall fuel c o scs src dcs dst matches f0 dr sr s' res,
+    fs_wf f0 ->
+    forallb name_ok dcs = true -> chain f0 (c_root c) dcs dr -> (length dcs < rfuel)%nat ->
+    forallb name_ok scs = true -> chain f0 (c_root c) scs sr -> (length scs < rfuel)%nat ->
+    (scs = dcs \/ ~ inside_dir f0 dr sr) ->
+    has_nul src = false -> (forall l, matches = Some l -> forallb (fun m => negb (has_nul m)) l = true) ->
+    copy_top fuel c o (render scs) src (render dcs) dst matches (cst_init f0) = (s', res) ->
+    forall i, (i < f_next f0)%N -> ~ inside_dir f0 dr i -> get (s_fs s') i = get f0 i.
+Proof. exact copy_contained_proof. Qed.
+Print Assumptions copy_contained.
+
+(* A symlink met at a target name "<dstRoot>/cs/x" (cs real directories) is never traversed:
+   ensureEmptyFileTarget (non-directory source) unlinks it — the name is gone, the link inode and
+   whatever it points to untouched — and copyDirectoryOnly (directory source) reports the conflict
+   without touching anything.  (That no later call goes through such a link either is part of
+   copy_contained: the outside is unchanged whatever the links point to.) *)
+Theorem dest_symlink_never_followed_partial :
+  forall c f0 dr dcs cs x d i t m,
+    fs_wf f0 ->
+    forallb name_ok dcs = true -> chain f0 (c_root c) dcs dr -> (length dcs < rfuel)%nat ->
+    forallb name_ok cs = true -> name_ok x = true -> chain f0 dr cs d ->
+    blookup x (dents f0 d) = Some i -> get f0 i = Some {| i_kind := KLink t; i_meta := m |} ->
+    (forall s' r, ensure_empty_file_target c (render (dcs ++ cs ++ [x])) (cst_init f0) = (s', r) -> r = inl tt ->
+        blookup x (dents (s_fs s') d) = None /\ get (s_fs s') i = get f0 i) /\
+    (forall fi ow s' r, copy_directory_only c (render (dcs ++ cs ++ [x])) fi ow (cst_init f0) = (s', r) ->
+        (exists e, r = inr e) /\ s_fs s' = f0).
+Proof.
+  intros c f0 dr dcs cs x d i t m W H1 H2 H3 H4 H5 H6 H7 H8. split.
+  - intros s' r. exact (dest_symlink_unlinked c f0 dr dcs cs x d i t m W H1 H2 H3 H4 H5 H6 H7 H8 s' r).
+  - intros fi ow s' r. exact (dest_symlink_reported c f0 dr dcs cs x d i t m W H1 H2 H3 H4 H5 H6 H7 H8 fi ow s' r).
+Qed.
+Print Assumptions dest_symlink_never_followed_partial.
+
+(* non-vacuity: the witness of the hard-link-path escape on the model of the repaired code.
+   /o/h (inode 3, mode 0600) is outside; Copy("/s", "?/?" = p/h q/h r/g, "/d", "/") succeeds, the
+   destination holds g (a fresh regular file, not a link to the symlink) and h (the symlink), and
+   /o/h is untouched. *)
+Example copy_examples :
+  snd wC_run = inl tt
+  /\ resolve_ino ctx_init wC [47;111;47;104] false = inl 3
+  /\ get (s_fs (fst wC_run)) 3 = get wC 3
+  /\ map (fun e => fst (fst e)) (tree_below 8 (s_fs (fst wC_run)) 5 []) = [[103]; [104]]
+  /\ resolve_ino ctx_init (s_fs (fst wC_run)) [47;100;47;103] true = inl 13.
 Proof. vm_compute. repeat split. Qed.
